@@ -115,7 +115,32 @@ pub fn collect_ok<T, N: ArrayLength, const R: usize>() {
     assert!(!src.polled_after_end && src.next_calls <= n + 1);
 }
 
+/// zero-sized items: the *number* of items is the whole content (a fill loop over a pointer range never runs for them)
+pub fn collect_zst<T, N: ArrayLength, const R: usize>() {
+    let n = N::USIZE;
+    let count = any_upto(n + 2);
+    let exact = any_bool();
+    let boxed = any_bool();
+    kani_cover!(count == n && exact && !boxed);
+    kani_cover!(count == n && !exact && boxed);
+    let ok = if boxed {
+        if exact { GenericArray::<(), N>::try_boxed_from_iter(core::iter::repeat(()).take(count)).is_ok() }
+        else { GenericArray::<(), N>::try_boxed_from_iter(core::iter::repeat(()).take(count).filter(|_| true)).is_ok() }
+    } else if exact { GenericArray::<(), N>::try_from_iter(core::iter::repeat(()).take(count)).is_ok() }
+    else { GenericArray::<(), N>::try_from_iter(core::iter::repeat(()).take(count).filter(|_| true)).is_ok() };
+    assert!(ok == (count == n), "zero-sized items: Ok is not equivalent to `exactly N items`");
+}
+
 pub mod q {
+    pub mod collect_zst {
+        use super::super::collect_zst;
+        use crate::common::*;
+        lattice! { collect_zst;
+            n0: <(), U0, 0> unwind 5;
+            n1: <(), U1, 0> unwind 6;
+            n3: <(), U3, 0> unwind 8;
+        }
+    }
     pub mod collect {
         use super::super::collect;
         use crate::common::*;
